@@ -60,6 +60,9 @@ type DeviceMfgInfo struct {
 func SignDeviceCertificate(deviceCAKey crypto.Signer, deviceCAChain []*x509.Certificate) func(*DeviceMfgInfo) ([]*x509.Certificate, error) {
 	return func(info *DeviceMfgInfo) ([]*x509.Certificate, error) {
 		// Validate device info
+		if info == nil {
+			return nil, fmt.Errorf("device info is required to sign a device certificate")
+		}
 		csr := x509.CertificateRequest(info.CertInfo)
 		if err := csr.CheckSignature(); err != nil {
 			return nil, fmt.Errorf("invalid CSR: %w", err)
